@@ -213,7 +213,7 @@ pub fn property() -> Property {
     jobs.push(
         job(
             "Identifier/random",
-            30_000,
+            100_000,
             1_000_000,
             || strat((path_strategy(), path_strategy(), path_strategy(), proptest::collection::vec(prop_oneof![3 => 0u8..5, 1 => any::<u8>()], 1..4), any::<u8>(), any::<u8>()).prop_map(|(a, b, c, markers, share_b, share_c)| IdCase { a, b, c, markers, share_b, share_c })),
             |t: &IdCase, st: &mut Stats| {
@@ -259,6 +259,31 @@ pub fn property() -> Property {
                 Ok(())
             },
         )
+        .decoder(|d: &[u8]| {
+            if d.len() < 8 {
+                return None;
+            }
+            let mut r = crate::plan::Reader::new(d);
+            let mut path = |r: &mut crate::plan::Reader| -> Path {
+                let n = 1 + (r.u8() % 6) as usize;
+                (0..n)
+                    .map(|_| {
+                        let k = r.u8();
+                        let rat = match k % 4 {
+                            0 => ((k / 4 % 2) as i64, 1),
+                            1 | 2 => ((r.u8() % 5) as i64 - 2, 1 + (r.u8() % 3) as i64),
+                            _ => (r.u16() as i64 - 1000, 1 + (r.u8() % 49) as i64),
+                        };
+                        (rat, r.u8() % 5)
+                    })
+                    .collect()
+            };
+            let a = path(&mut r);
+            let b = path(&mut r);
+            let c = path(&mut r);
+            let markers: Vec<u8> = (0..1 + (r.u8() % 3)).map(|_| r.u8() % 6).collect();
+            Some(IdCase { a, b, c, markers, share_b: r.u8(), share_c: r.u8() })
+        })
         .floor("nontrivial", 0.2)
         .boxed(),
     );
